@@ -35,6 +35,9 @@ pub enum Op {
     Client(bool),
     /// conn_id, datagram, now, classic, cross-in-full
     Uplink(u64, Vec<u8>, u64, bool, bool),
+    /// a backlog of uplink datagrams queued on the reader channel before the event loop wakes up: they go
+    /// through the REAL `drain_packet_queue` (64 per slice, called until the queue is empty, as the loop does)
+    Burst(Vec<(u64, Vec<u8>)>, u64, bool),
 }
 
 fn fnv(b: &[u8]) -> u64 {
@@ -74,6 +77,7 @@ pub fn op_lit(o: &Op) -> String {
         Op::Mark(i) => format!("SMark {}", i),
         Op::Client(b) => format!("SClient {}", boolc(*b)),
         Op::Uplink(id, d, now, cl, full) => format!("UUplink {} {} {} {}", id, wd_lit(d, *full), now, boolc(*cl)),
+        Op::Burst(..) => unreachable!("a burst is expanded into its datagrams by run_hist"),
     }
 }
 
@@ -82,7 +86,7 @@ pub fn op_kind(o: &Op) -> &'static str {
         Op::Register(..) => "register", Op::Track(..) => "track", Op::Conn(..) => "set_conn",
         Op::Wait(..) => "set_waiting", Op::Phase(..) => "set_phase", Op::Recon(..) => "set_recon",
         Op::Proof(..) => "set_proof", Op::Mark(..) => "mark_recovery", Op::Client(..) => "set_client",
-        Op::Uplink(..) => "uplink",
+        Op::Uplink(..) => "uplink", Op::Burst(..) => "uplink_burst",
     }
 }
 
@@ -181,6 +185,25 @@ impl World {
             Op::Proof(i, v) => self.conns[*i].last_ack_or_rtt_sample_ms = *v,
             Op::Mark(i) => self.conns[*i].mark_for_recovery(),
             Op::Client(b) => self.client_known = *b,
+            Op::Burst(items, now, classic) => {
+                srtla_core::utils::verif_clock::set(Some(*now));
+                let snap = ConfigSnapshot {
+                    mode: if *classic { SchedulingMode::Classic } else { SchedulingMode::Enhanced },
+                    ..ConfigSnapshot::default()
+                };
+                let (tx, mut rx) = srtla_send::sender::verif_hooks::create_uplink_channel();
+                for (id, d) in items { let _ = tx.send(UplinkPacket { conn_id: *id, bytes: SmallVec::from_slice_copy(d) }); }
+                let addr = if self.client_known { Some(self.client_addr) } else { None };
+                let World { rt, listener, conn_io, instant_tx, conns, reg, tracker, .. } = self;
+                rt.block_on(async {
+                    let mut slices = 0;
+                    while !rx.is_empty() && slices < 10_000 {
+                        srtla_send::sender::verif_hooks::drain_packet_queue(&mut rx, conns, conn_io, reg, instant_tx, addr,
+                                                                             listener, tracker, &snap).await;
+                        slices += 1;
+                    }
+                });
+            }
             Op::Uplink(id, d, now, classic, _) => {
                 srtla_core::utils::verif_clock::set(Some(*now));
                 let snap = ConfigSnapshot {
@@ -310,7 +333,30 @@ pub fn run_hist(w: &mut World, n: usize, ops: &[Op]) -> (String, bool, usize) {
     let mut steps = Vec::with_capacity(ops.len());
     let mut panicked = false;
     let mut delivered = 0usize;
-    for o in ops {
+    for (pos, o) in ops.iter().enumerate() {
+        if let Op::Burst(items, now, classic) = o {
+            // One backlog = one run of the real drain loop.  The observation after its first j datagrams is
+            // taken from a re-execution of the same history with the backlog cut after j entries (the drain
+            // handles the queue in order, so that is the state the full run passes through); the last
+            // re-execution is the full backlog and leaves the world in the state the history continues from.
+            let mut seen: Vec<Vec<u8>> = vec![];
+            for j in 1..=items.len() {
+                w.reset(n);
+                for p in &ops[..pos] { let _ = step(w, p); }
+                let cut = Op::Burst(items[..j].to_vec(), *now, *classic);
+                let mut ob = step(w, &cut);
+                let all = ob.fwd.clone();
+                ob.fwd = if all.len() >= seen.len() && all[..seen.len()] == seen[..] { all[seen.len()..].to_vec() } else { all.clone() };
+                seen = all;
+                delivered += ob.fwd.len();
+                let single = Op::Uplink(items[j - 1].0, items[j - 1].1.clone(), *now, *classic, true);
+                steps.push(format!("({},{})", op_lit(&single), dobs_lit(&prev, &ob, true)));
+                if ob.panic { panicked = true; break; }
+                prev = ob;
+            }
+            if panicked { break; }
+            continue;
+        }
         let ob = step(w, o);
         let full = matches!(o, Op::Uplink(_, _, _, _, true));
         delivered += ob.fwd.len();
@@ -665,6 +711,36 @@ pub fn run(seed: u64, tier: &str, out: &Path, extra: &[(String, String)]) -> std
         let (text, p, _) = run_hist(&mut w, n, &ops);
         if p { run.panics += 1; }
         run.push("corpus", true, text);
+    }
+
+    // backlogs through the real bounded drain: sizes around the 64-per-slice budget
+    {
+        let sizes: &[usize] = if thorough { &[1, 2, 63, 64, 65, 66, 127, 128, 129, 130, 200] } else { &[64, 65, 130] };
+        for (k, &nb) in sizes.iter().enumerate() {
+            let mut r2 = rng.fork(0xB0 + k as u64);
+            let n = 1 + r2.below(3) as usize;
+            let now0 = 2_000_000 + r2.below(1000);
+            let mut ops = vec![Op::Client(true)];
+            for i in 0..n { ops.push(Op::Conn(i, true, Some(now0))); ops.push(Op::Phase(i, Ph::Live)); }
+            let mut items = vec![];
+            for j in 0..nb {
+                let i = r2.below(n as u64) as usize;
+                let mut d: Vec<u8> = match r2.below(10) {
+                    0 => vec![0x80, 0x02],                       // SRT ACK type, short
+                    1 => vec![0x80, 0x03, 0, 0, 0, 0, 0, 9],     // SRT NAK
+                    2 => vec![0x80, 0x07],                       // other SRT control
+                    _ => { let mut b = ((7000 + j as u32) & 0x7fff_ffff).to_be_bytes().to_vec(); b.extend_from_slice(&[0, 0, 0, 0]); b }
+                };
+                d.extend_from_slice(&(j as u16).to_be_bytes());  // every datagram of the backlog is distinct
+                items.push((conn_id_of(i), d));
+            }
+            ops.push(Op::Burst(items, now0 + 5, r2.chance(1, 3)));
+            run.count("op:uplink_burst");
+            run.count_n("burst_datagrams", nb as u64);
+            let (text, p, _) = run_hist(&mut w, n, &ops);
+            if p { run.panics += 1; }
+            run.push("drain_backlog", true, text);
+        }
     }
 
     // exhaustive type-code families
